@@ -671,7 +671,17 @@ def run_c17(run, thorough=False):
     checked = []
     for h in range(nhist):
         P = rnd.choice(progs)
+        if h % 3 == 1:
+            P = {"lines": [l[:-1] + "\r\n" if l.endswith("\n") else l for l in P["lines"]], "tag": P["tag"] + "-crlf", "meta": {}}
         qs = [rnd.choice(pool) for _ in range(rnd.choice([1, 2, 3, 6]))]
+        if h % 2 == 0:
+            # rejected and accepted variants of P itself (same operand texts): an undefined symbol, a duplicate label, a bad last line
+            bad = [list(P["lines"]) + [" LDA #NOSUCHSYM+1\n"], list(P["lines"]) + [" LDX #C1+2\n", " LDA 70000\n"],
+                   [" LDX #TABLE+2\n", " LDA #VAR+1\n"] + list(P["lines"]), list(P["lines"])[:max(1, len(P["lines"]) // 2)] + [" BRA NOWHERE\n"],
+                   # the same expression texts over DIFFERENT symbol values, rejected late (after symbol resolution has run)
+                   [re.sub(r"EQU\s+\S+", "EQU $77", l) for l in P["lines"]] + [" JMP NOSUCHSYM\n"],
+                   [" ORG $5000\n", " RMB 77\n"] + [l for l in P["lines"] if "ORG" not in l.upper()] + [" JMP NOSUCHSYM\n"]]
+            qs = [{"lines": b, "tag": "variant", "meta": {}} for b in rnd.sample(bad, rnd.choice([2, 3]))] + qs[:1]
         before = fam_asm.impl_prog_canon(fam_asm.impl_prog(P["lines"]))
         for q in qs:
             fam_asm.impl_prog(q["lines"])
